@@ -112,7 +112,7 @@ add(
     "H3 solver monitor (instance snapshot, operation counts, per-round costs) + exact-rational weak-duality certificate per recorded solve(); logical step budget for termination; known finding keyed by mechanism",
     "Every vpsc.Solver(...).solve() made by the workload - seeded direct instances of 7 graph shapes x 3 weight classes x 2 scale classes, cyclic "
     "variants, the shapes of the repo's fixtures, and every layer problem that real layouts create (in situ) - is recorded by the monitor and "
-    "judged: feasibility to 1e-6, returned cost equals the cost of the positions, and an optimality gap <= 1e-3(1+cost) certified by a dual "
+    "judged: feasibility to 1e-6, returned cost equals the cost of the positions, and an optimality gap <= 1e-3 + 1e-9*cost certified by a dual "
     "lower bound evaluated exactly (multipliers from the solver's own active forest, from the forest reached by continuing the library's own "
     "iteration, or Hildreth dual ascent; upper bounds only from exhibited feasible points). Operations per solve are bounded by 200(n+m)+1e4. "
     "Held = on the instances solved; the degenerate-pivot early stop is a listed known finding.",
